@@ -465,11 +465,21 @@ def spaceSafe : List Item → Bool
 /-- ASCII white space (what `%t`, `%n` and blanks in a format string are) -/
 def asciiWs (b : Nat) : Bool := (decide (9 ≤ b) && decide (b ≤ 13)) || b == 32
 
-/-- the invertible items for which `item_inverts` is proved: all of them except white-space items
-that contain non-ASCII white space and the `Z`-printing offset items (no specifier produces those) -/
+/-- the bytes are a run of white-space characters (UTF-8 encodings of the 25 `char::is_whitespace`
+characters, ASCII or not): what a white-space item of a format string holds -/
+def wsRunAux : Nat → List Nat → Bool
+  | _, [] => true
+  | 0, _ :: _ => false
+  | fuel + 1, b :: rest =>
+    let n := Scan.wsLen (b :: rest)
+    n != 0 && wsRunAux fuel ((b :: rest).drop n)
+def wsRun (s : List Nat) : Bool := wsRunAux s.length s
+
+/-- the invertible items for which `item_inverts` is proved: all of them except the `Z`-printing offset
+items (no specifier produces those); a white-space item holds a run of white-space characters -/
 def provedItem : Item → Bool
   | .literal _ => true
-  | .space s => s.all asciiWs
+  | .space s => wsRun s
   | .numeric _ _ => true
   | .fixed .shortMonthName | .fixed .longMonthName | .fixed .shortWeekdayName | .fixed .longWeekdayName
   | .fixed .lowerAmPm | .fixed .upperAmPm | .fixed .nanosecond | .fixed .nanosecond3 | .fixed .nanosecond6
